@@ -49,6 +49,10 @@ def push(b):
     return b'\x4d' + n.to_bytes(2, 'little') + b
 
 
+DER_LOOKALIKES = [b'\x02\x01\x00', b'\x02\x01\x01', b'\x02\x00', b'\x30\x06\x02\x01\x00\x02\x01\x00', b'\x02\x20', b'\x02\x21\x00', b'\x30\x44\x02\x20',
+                  b'\x30\x45\x02\x21\x00', b'\x30\x00', b'\x00\x00\x00', b'\xff\xff\xff', b'\x02\x01\x80', b'\x05\x00']
+
+
 class Sign(Engine):
     name = 'SIGN'
     props = ('C13', 'C14', 'C05')
@@ -86,6 +90,14 @@ class Sign(Engine):
             v = N - rng.randint(1, 300)
         elif q < 0.72:
             v = HALF_N + rng.randint(-2, 2)
+        elif q < 0.82:
+            # value bytes that read like DER structure themselves (an encoded zero, a nested header, an
+            # INTEGER tag with a plausible length), anywhere inside the integer
+            pat = rng.choice(DER_LOOKALIKES)
+            raw = bytearray(gen.rbytes(rng, rng.choice([32, 32, 31, 20, 8])))
+            at = rng.randrange(0, max(1, len(raw) - len(pat) - 1))
+            raw[at:at + len(pat)] = pat
+            v = int.from_bytes(raw[:32], 'big')
         else:
             v = rng.randint(1, N - 1)
         return '%064x' % max(1, min(N - 1, v))
